@@ -3675,3 +3675,51 @@ B("SW-C16-config-key-without-keyspace-id", "C16", "C16:R-C16.8:meta_keyspace::en
   "        writer.write_u64::<BE>(keyspace_id).unwrap();", "        writer.write_u64::<BE>(0).unwrap();")
 B("SW-C16-config-key-without-option-name", "C16", "C16:R-C16.8:meta_keyspace::encode_config_key", "src/meta_keyspace.rs",
   "        writer.write_all(name.as_bytes()).unwrap();", "        writer.write_all(&vec![0u8; name.len()]).unwrap();")
+B("SW-C08-optimistic-helper-insert-writes-nothing", "C08", "C08:R-C08.10:tx::optimistic::keyspace::OptimisticTxKeyspace::insert", "src/tx/optimistic/keyspace.rs",
+  "        tx.insert(self.inner(), key, value);", "        let _ = (&mut tx, key.into(), value.into());")
+B("SW-C08-single-writer-helper-insert-never-commits", "C08", "C08:R-C08.10:tx::single_writer::keyspace::SingleWriterTxKeyspace::insert", "src/tx/single_writer/keyspace.rs",
+  "        tx.insert(self, key, value);\n        tx.commit()?;", "        tx.insert(self, key, value);")
+B("SW-C08-single-writer-tx-remove-writes-nothing", "C08", "C08:R-C08.10:tx::single_writer::write_tx::WriteTransaction::<'tx>::remove", "src/tx/single_writer/write_tx.rs",
+  "        self.inner.remove(keyspace.inner(), key);", "        let _ = (keyspace.inner(), key.into());")
+B("SW-C07-optimistic-helper-remove-writes-nothing", "C07", "C07:R-C07.12", "src/tx/optimistic/keyspace.rs",
+  "        tx.remove(self.inner(), key);", "        let _ = (&mut tx, key.into());")
+_TXW = "src/tx/write_tx.rs"
+B("SW-C08-fetch-update-writes-only-unchanged-values", "C08", "C08:R-C08.6:tx::write_tx::BaseTransaction::fetch_update:writes-what", _TXW,
+  """        if let Some(value) = updated {
+            // NOTE: Skip insert if the value hasn't changed
+            if prev.as_ref() != Some(&value) {""", """        if let Some(value) = updated {
+            // NOTE: Skip insert if the value hasn't changed
+            if prev.as_ref() == Some(&value) {""")
+B("SW-C08-update-fetch-removes-only-absent-keys", "C08", "C08:R-C08.6:tx::write_tx::BaseTransaction::update_fetch:writes-what", _TXW,
+  """                self.insert(keyspace, key, value);
+            }
+        } else if prev.is_some() {
+            self.remove(keyspace, key);
+        }
+
+        Ok(updated)""", """                self.insert(keyspace, key, value);
+            }
+        } else if prev.is_none() {
+            self.remove(keyspace, key);
+        }
+
+        Ok(updated)""")
+E("EQ-fetch-update-compares-with-eq", _TXW, """        if let Some(value) = updated {
+            // NOTE: Skip insert if the value hasn't changed
+            if prev.as_ref() != Some(&value) {
+                self.insert(keyspace, key, value);
+            }
+        } else if prev.is_some() {
+            self.remove(keyspace, key);
+        }
+
+        Ok(prev)""", """        if let Some(value) = updated {
+            // NOTE: Skip insert if the value hasn't changed
+            if !(prev.as_ref() == Some(&value)) {
+                self.insert(keyspace, key, value);
+            }
+        } else if !prev.is_none() {
+            self.remove(keyspace, key);
+        }
+
+        Ok(prev)""", props=["C08", "C07"])
